@@ -303,6 +303,8 @@ func init() {
 			js := chunk("sites", "prod", 6894, 431, Job{Timeout: 20 * time.Minute})
 			// the four Verbose entry points exist only in a build with the library's tag "verbose": their 216 cells
 			js = append(js, Job{Sub: "sites", Mode: "prod", From: 6894, To: 7110, Variant: "verbose", Timeout: 20 * time.Minute})
+			// processes whose first log/slog handler record comes from a wrapping helper, not from a Logger method
+			js = append(js, chunk("sites", "prod", 6894, 862, Job{Args: []string{"-x", "firstwrap=1"}, Timeout: 20 * time.Minute})...)
 			js = append(js, chunk("conc", "prod", pick(tier, 8, 60), pick(tier, 2, 6), Job{Timeout: 20 * time.Minute})...)
 			if tier == "thorough" {
 				js = append(js, chunk("sites", "prod", 6894, 431, Job{NoInl: true, Args: []string{"-x", "build=noinline"}, Timeout: 20 * time.Minute})...)
